@@ -67,6 +67,50 @@ func c12RepeatRecipients(x ap.Item) {
 	})
 }
 
+// c12NestLists makes up to three item lists of a value hold a list as one of their members (what "tag":["a",["b"],"c"] decodes to):
+// a list of one in place of a member, an empty list, a list of two held through a pointer, an IRI list.
+func c12NestLists(x ap.Item) {
+	n := 0
+	nest := func(l ap.ItemCollection) ap.ItemCollection {
+		if len(l) == 0 {
+			return l
+		}
+		n++
+		at := (n * 5) % len(l)
+		var inner ap.Item
+		switch n % 4 {
+		case 0:
+			inner = ap.ItemCollection{l[at]}
+		case 1:
+			inner = ap.ItemCollection{}
+		case 2:
+			two := ap.ItemCollection{l[at], ap.IRI(fmt.Sprintf("https://example.com/nested/%d", n))}
+			inner = &two
+		default:
+			inner = ap.IRIs{ap.IRI(fmt.Sprintf("https://example.com/nested/%d", n))}
+		}
+		nl := append(append(append(ap.ItemCollection{}, l[:at]...), inner), l[at:]...)
+		if n%4 == 0 || n%4 == 2 {
+			nl = append(append(append(ap.ItemCollection{}, l[:at]...), inner), l[at+1:]...)
+		}
+		return nl
+	}
+	vocab.Walk(x, 0, func(path string, depth int, node reflect.Value) {
+		if !node.CanSet() {
+			return
+		}
+		for _, f := range vocab.Fields(node.Type()) {
+			if f.Kind != vocab.KItems || n >= 3 {
+				continue
+			}
+			fv := node.Field(f.Index)
+			if l := fv.Interface().(ap.ItemCollection); len(l) > 0 {
+				fv.Set(reflect.ValueOf(nest(l)))
+			}
+		}
+	})
+}
+
 // c12EmptyTags gives the language lists of up to four nodes a second entry and puts one entry under the empty tag.
 func c12EmptyTags(x ap.Item) {
 	n := 0
@@ -388,6 +432,13 @@ var c12Gen = rapid.Custom(func(t *rapid.T) ap.Item {
 	if rapid.IntRange(0, 2).Draw(t, "plant-empty-tag") == 0 {
 		c12EmptyTags(x)
 	}
+	// now and then a list holds a list as one of its members: operations that look through such a member look, they do not splice
+	if rapid.IntRange(0, 3).Draw(t, "plant-nested-lists") == 0 {
+		c12NestLists(x)
+		if l, ok := x.(ap.ItemCollection); ok && len(l) > 1 {
+			x = append(ap.ItemCollection{l[0], ap.ItemCollection{l[1]}}, l[1:]...)
+		}
+	}
 	// a value that came out of the decoder (it may still share memory with whatever the decoder used): a later decode of an unrelated
 	// document, one of the operations below, must not change it
 	if rapid.IntRange(0, 3).Draw(t, "from-decoder") == 0 {
@@ -523,6 +574,9 @@ func c12ConcurrentValue(i int, seed int) ap.Item {
 		}
 		if i%4 == 2 {
 			c12EmptyTags(x)
+		}
+		if i%3 == 2 {
+			c12NestLists(x)
 		}
 		c12Spare(x)
 		return x
